@@ -245,7 +245,9 @@ def c18_special(pid, prop, tier, seed, b):
             failures.append((c, f))
         if d:
             disagreements.append((c, d))
-    return cases, impl_lines, failures, disagreements, dict(problems=problems)
+    extra, probs = xcheck_extra(mlines, mout, 10 if tier == 'quick' else 60)
+    extra['problems'] = problems + probs
+    return cases, impl_lines, failures, disagreements, extra
 
 
 # ------------------------------------------------------------------ C17 seqls
@@ -647,7 +649,21 @@ def c17_special(pid, prop, tier, seed, b):
             failures.append((c, ['in the model of the coordinator as the source now reads, a schedule returns before every directory is read: ' + o[3:600]]))
         elif not o.startswith(('OK complete', 'OUTOFFUEL')):
             disagreements.append((c, ['the model driver did not evaluate the coordinator: ' + o[:200]]))
-    return cases, impl_lines, failures, disagreements, dict()
+    small_fw = [(l, o) for l, o, c in zip(fw_lines, fw_out, fw_cases) if len(c['meta']['parents']) <= 4 and c['meta']['nw'] <= 2]
+    extra, probs = xcheck_extra(mlines + [l for l, o in small_fw], list(mout) + [o for l, o in small_fw], 8 if tier == 'quick' else 40)
+    extra['problems'] = probs
+    return cases, impl_lines, failures, disagreements, extra
+
+
+def xcheck_extra(lines, outs, limit=10):
+    """evaluate a slice of the model lines of a special check INSIDE Coq as well (vm_compute on
+    Driver.dispatch) and compare with the extracted driver's output"""
+    pairs = sorted(zip(lines, outs), key=lambda lo: len(lo[0]))
+    pairs = [lo for lo in pairs if lo[1] and not lo[1].startswith('OUTOFFUEL')][:limit * 3]
+    n, bad, msg = infra.incoq_crosscheck([l for l, o in pairs], [o for l, o in pairs], limit)
+    extra = dict(extraction_crosscheck=dict(in_coq_cases=n, in_coq_mismatches=bad))
+    probs = [('extraction', msg or '%d of %d model lines differ between vm_compute inside Coq and the extracted OCaml driver' % (bad, n))] if (bad and n) else []
+    return extra, probs
 
 
 # ------------------------------------------------------------------ C19 the C++ port
@@ -982,8 +998,10 @@ def c20_special(pid, prop, tier, seed, b):
     if wrap_fail:
         m_ = re.search(r'verif_driver_test\.go:\d+: ([^\n]*)', wrap_fail)
         failures.append((c, ['exported wrappers: ' + (m_.group(1) if m_ else wrap_fail[-300:])[:500]]))
-    return cases, impl_lines, failures, disagreements, dict(problems=problems, states=len(cases), transitions=sum(len(c['raw'].split(' ')[2].split(',')) for c in cases if 'raw' in c),
-                                                             traces_validated_against_impl=len(cases))
+    extra, probs = xcheck_extra([c['line'] for c in cases if 'raw' in c], [c['model'] for c in cases if 'raw' in c], 10 if tier == 'quick' else 60)
+    extra.update(problems=problems + probs, states=len(cases), transitions=sum(len(c['raw'].split(' ')[2].split(',')) for c in cases if 'raw' in c),
+                 traces_validated_against_impl=len(cases))
+    return cases, impl_lines, failures, disagreements, extra
 
 
 # ------------------------------------------------------------------ C16 concurrency of independent calls
